@@ -324,7 +324,18 @@ func ruleOU6(c *Ctx) {
 		if f == nil {
 			continue
 		}
-		for _, g := range append([]*ssa.Function{f}, Closures(f)...) {
+		// the command and everything it reaches (helpers, methods of a view struct, closures)
+		scope := map[*ssa.Function]bool{f: true}
+		for g := range c.F.TransitiveCallees(f) {
+			scope[g] = true
+		}
+		var fns []*ssa.Function
+		for _, g := range c.Fns {
+			if scope[g] || scope[Outermost(g)] {
+				fns = append(fns, g)
+			}
+		}
+		for _, g := range fns {
 			for _, call := range callsIn(g) {
 				n := calleeFullName(call.Common())
 				isOut := strings.HasPrefix(n, "fmt.Print") || (strings.HasPrefix(n, "fmt.Fprint") && isGlobalLoad(call.Common().Args[0], "Stdout")) || n == ergoPath+".writeJSON"
